@@ -120,6 +120,11 @@ UOff(u) == CASE u = "Cel" -> Q(27315, 1, -2) [] u = "degF" -> Q(45967, 1, -2) []
 AffineUnits == {"Cel", "degF"}
 UText(u) == IF u = "len" THEN "[len]" ELSE u
 CustomUnits == << [name |-> "len", n |-> 2, unit |-> "m"] >>
+\* the same custom unit written with a definition in another unit of its dimension ($unit len = 200 cm): the
+\* documented examples define units in pc, AU, Gy - the unit's magnitude is  number * magnitude of the stated unit
+CustomAlt == << [name |-> "len", n |-> 200, unit |-> "cm"] >>
+ASSUME \A i \in 1..Len(CustomAlt) : QMul(Q(CustomAlt[i].n, 1, 0), USc(CustomAlt[i].unit)) = USc(CustomAlt[i].name)
+ASSUME \A i \in 1..Len(CustomUnits) : QMul(Q(CustomUnits[i].n, 1, 0), USc(CustomUnits[i].unit)) = USc(CustomUnits[i].name)
 DAdd(a, b) == <<a[1] + b[1], a[2] + b[2], a[3] + b[3], a[4] + b[4], a[5] + b[5]>>
 DSub(a, b) == <<a[1] - b[1], a[2] - b[2], a[3] - b[3], a[4] - b[4], a[5] - b[5]>>
 DScale(a, k) == <<a[1] * k, a[2] * k, a[3] * k, a[4] * k, a[5] * k>>
